@@ -210,7 +210,10 @@ def run(ctx):
 
 
 # sensitivity pack (thorough tier): each seeded edit must be reported by the named rule instance
-MUTANTS = [{'name': 'or-receiver-swapped', 'file': 'src/settings.rs', 'old': 'index: self.index.or(source.index),', 'new': 'index: source.index.or(self.index),', 'expect': ('R36.1', 'Settings::or', 'index = self.index.or')},
+MUTANTS = [
+  {'name': 'seeded-C36-a', 'patch': 'C36-a/patch.diff', 'expect': ('R36.4', 'augment_args', 'clap default')},
+  {'name': 'seeded-C36-b', 'patch': 'C36-b/patch.diff', 'expect': ('R36.1', 'Settings::or', 'max_savepoints')},
+{'name': 'or-receiver-swapped', 'file': 'src/settings.rs', 'old': 'index: self.index.or(source.index),', 'new': 'index: source.index.or(self.index),', 'expect': ('R36.1', 'Settings::or', 'index = self.index.or')},
            {'name': 'env-before-flags', 'file': 'src/settings.rs', 'old': 'let settings = Settings::from_options(options).or(Settings::from_env(env)?);', 'new': 'let settings = Settings::from_env(env)?.or(Settings::from_options(options));', 'expect': ('R36.2', 'Settings::merge', 'from_options(options).or(from_env')},
            {'name': 'env-key-crossed', 'file': 'src/settings.rs', 'old': 'index_runes: get_bool("INDEX_RUNES"),', 'new': 'index_runes: get_bool("INDEX_SATS"),', 'expect': ('R36.3', 'from_env', 'index_runes <- get_bool')}]
 
